@@ -7,7 +7,7 @@
    Part 4  consequences: current_is_established, no "table missing" panic, tls_released, write locality
    Part 5  restored_after: the bracket theorem `scope_run`
    Part 6  goroutine_local: the machine is a machine with one private table per goroutine (`run_private`)
-   Part 7  fork: what the child inherits (`fork_inherits`) *)
+   (Parts 7-9 — ownership of contexts, loaders, isolation of forked contexts — are in Proofs/CtxIsolation.v.) *)
 From Coq Require Import ZArith NArith Bool List Lia Arith.
 From PcoreV Require Import Model.Base Model.Ctx.
 Import ListNotations.
